@@ -164,6 +164,70 @@ def extract():
         if isinstance(node, ast.If) and isinstance(node.test, ast.UnaryOp) and isinstance(node.test.op, ast.Not) \
                 and getattr(node.test.operand, "id", "") == "active":
             inactive = attr_calls_in_order(node.body, ("_clientDisconnect", "unregister", "close"))
+    # -- socket calls inside except / finally bodies of the transports must themselves be contained: after a reset
+    #    getpeername() & co. raise OSError, and an exception raised inside a handler is caught by no sibling clause
+    RISKY = {"getpeername", "getsockname", "getpeercert", "shutdown", "fileno", "settimeout", "gettimeout", "send", "recv",
+             "register", "unregister"}
+    COVER = {"osError", "exception", "baseException"}
+
+    def unguarded(mod, label, fn):
+        out = []
+
+        def visit(node, safe):
+            if isinstance(node, ast.Try):
+                covers = any(set(names_of(mod, h.type)) & COVER for h in node.handlers)
+                for st in node.body:
+                    visit(st, safe or covers)
+                for part in [h.body for h in node.handlers] + [node.orelse, node.finalbody]:
+                    for st in part:
+                        visit(st, safe)
+                return
+            if isinstance(node, ast.With):
+                sup = False
+                for item in node.items:
+                    c = item.context_expr
+                    if isinstance(c, ast.Call) and getattr(c.func, "attr", "") == "suppress":
+                        sup = sup or any(set(names_of(mod, a)) & COVER for a in c.args)
+                for st in node.body:
+                    visit(st, safe or sup)
+                return
+            if isinstance(node, ast.Call) and isinstance(node.func, ast.Attribute) and node.func.attr in RISKY and not safe:
+                out.append("%s:%s" % (label, node.func.attr))
+            for ch in ast.iter_child_nodes(node):
+                visit(ch, safe)
+        for t in ast.walk(fn):
+            if isinstance(t, ast.Try):
+                for part in [h.body for h in t.handlers] + [t.finalbody]:
+                    for st in part:
+                        visit(st, False)
+        return sorted(set(out))
+
+    unguarded_calls = []
+    for mod, tree, cname, fnames in ((svr_threads, tt, "ClientConnectionJob", ["__call__", "handleConnection", "denyConnection"]),
+                                     (svr_threads, tt, "Worker", ["run"]),
+                                     (svr_threads, tt, "SocketServer_Threadpool", ["events", "loop"]),
+                                     (svr_multiplex, mt, "SocketServer_Multiplex", ["events", "_handleConnection", "handleRequest", "loop"])):
+        for fname in fnames:
+            unguarded_calls += unguarded(mod, "%s.%s" % (cname, fname), find(tree, cname, fname))
+
+    # -- with COMMTIMEOUT configured the accepted socket gets its timeout before anything reads from it: in the accept loop,
+    #    ahead of the job's creation (so the deny path, which runs in the accept loop, reads with the timeout too)
+    def lineno_of(fn, pred):
+        ls = [n.lineno for n in ast.walk(fn) if pred(n)]
+        return min(ls) if ls else None
+
+    def guarded_settimeout(fn):
+        for n in ast.walk(fn):
+            if isinstance(n, ast.If) and "COMMTIMEOUT" in ast.unparse(n.test) and calls(ast.Module(n.body, []), "settimeout"):
+                return n.lineno
+        return None
+    st_line = guarded_settimeout(ev)
+    job_line = lineno_of(ev, lambda n: isinstance(n, ast.Call) and getattr(n.func, "id", "") == "ClientConnectionJob")
+    thr_timeout_first = st_line is not None and job_line is not None and st_line < job_line
+    st_line = guarded_settimeout(hcm)
+    hs_line = lineno_of(hcm, lambda n: isinstance(n, ast.Call) and getattr(n.func, "attr", "") == "_handshake")
+    mux_timeout_first = st_line is not None and hs_line is not None and st_line < hs_line
+
     # -- the daemon: _handshake sends outside its try; (checked so that `gone` means what the model says)
     stree = ast.parse(open(server.__file__).read())
     hs = find(stree, "Daemon", "_handshake")
@@ -207,13 +271,20 @@ def workerNotifiesAfterTry : Bool := {b(notifies_after)}
 def multiplexInactive : List String := {json.dumps(inactive)}
 /-- denyConnection closes the socket on every path (close in a `finally`, or after a try whose handlers do not raise) -/
 def denyAlwaysCloses : Bool := {b(deny_closes)}
+/-- socket calls (getpeername, shutdown, send, ...) inside except / finally bodies of the transports that are not themselves
+    inside a try / suppress covering OSError: after a reset they raise, and nothing around a handler catches that -/
+def unguardedSocketCalls : List String := {json.dumps(unguarded_calls)}
+/-- `if config.COMMTIMEOUT: csock.settimeout(..)` stands in the accept loop before the connection job is created
+    (thread; so the refusal path reads with the timeout too) / before `_handshake` (multiplex) -/
+def threadTimeoutBeforeJob : Bool := {b(thr_timeout_first)}
+def multiplexTimeoutBeforeHandshake : Bool := {b(mux_timeout_first)}
 end Pyro.Gen.C05
 """
 
 
 # ---- running a history on the real code --------------------------------------------------------------------
 def run_real(h, servertype):
-    rig = c05_rig.LoopRig(servertype, poolsize=h["poolsize"], commtimeout=h["commtimeout"])
+    rig = c05_rig.LoopRig(servertype, poolsize=h["poolsize"], commtimeout=float(h["commtimeout"]))
     out = {"stuck": None, "snap": {}, "fresh_pool_full": None}
     try:
         objs_before = {k: id(v) for k, v in rig.daemon.objectsById.items()}
@@ -236,6 +307,7 @@ def run_real(h, servertype):
         except srvkit.Stuck as x:
             out["stuck"] = repr(x)
         out["loop_alive"] = rig.loop_alive
+        out["blocked"] = [(c, "acceptor" if t == rig.main_thread else "worker") for c, t in rig.blocked]
         out["loop_exc"] = rig.loop_exc
         out["obs"] = [rig.observe(c) if c in rig.started else None for c in range(h["nconn"])]
         out["replies"] = {c: rig.replies(c) for c in list(h["witnesses"]) + [h["fresh"]]}
@@ -313,6 +385,15 @@ def oracle_case(ctx, h, servertype, out, case):
                  "%s server: %s (%s) left transportServer.loop() — in a daemon it leaves requestLoop() and nothing is accepted any more"
                  % (st, e[0], e[2]), case)
         return          # everything else that goes wrong afterwards is a consequence
+    # with a communication timeout configured, a stalling peer may cost at most that timeout: every socket the daemon
+    # reads from must carry it (a recv() without one blocks its thread - the acceptor: the whole server - for ever)
+    if float(h["commtimeout"]) > 0 and out.get("blocked"):
+        who = sorted({w for _, w in out["blocked"]})
+        ctx.fail("stall-without-timeout:%s:%s" % (st, "+".join(who)),
+                 "%s server with COMMTIMEOUT=%s: the %s read from connection %d, whose peer had stalled, on a socket that was never "
+                 "given the timeout: in a daemon this recv() blocks for ever%s"
+                 % (st, h["commtimeout"], who[0], out["blocked"][0][0],
+                    " and nothing is accepted any more" if "acceptor" in who else ""), case)
     # witnesses: exactly the correct replies to their own calls, still connected
     for w in h["witnesses"]:
         want = [expected_reply(s[6]) for s in h["steps"] if s[0] == "send" and s[1] == w and s[6]]
